@@ -12,6 +12,8 @@ import CqlVerif.Drv.Reconn
 import CqlVerif.Drv.Topo
 import CqlVerif.Drv.Lex
 import CqlVerif.Drv.Idem
+import CqlVerif.Drv.Handled
+import CqlVerif.Drv.Route
 open CqlVerif.Drv
 
 def dispatch (stream op real : String) : Verdict :=
@@ -30,6 +32,8 @@ def dispatch (stream op real : String) : Verdict :=
   | "topo" => TopoStream.handle op real
   | "lex" => LexStream.handle op real
   | "idem" => IdemStream.handle op real
+  | "handled" => HandledStream.handle op real
+  | "route" => RouteStream.handle op real
   | _ => { kind := "diff", detail := s!"unknown stream {stream}" }
 
 partial def loop (h : IO.FS.Stream) (out : IO.FS.Stream) : IO Unit := do
